@@ -261,7 +261,7 @@ def run(prop, tier, replay):
     else:
         bw, bwc, btc = ["write", "branch"], ["write", "branch", "cleanup"], ["branch", "tag", "clone"]
         mc_runs = [("all-a", cfg("a-ab-a/b", 5, ALL_OPS), ALL_OPS), ("all-b", cfg("a/b-a/bc-b", 5, ALL_OPS), ALL_OPS),
-                   ("all-c", cfg("ab-a/b-a/bc", 5, ALL_OPS), ALL_OPS),
+                   ("all-c", cfg("ab-a/b-a/bc", 4, ALL_OPS), ALL_OPS),
                    ("bw4", cfg("a-ab-a/b-a/bc", 5, bw, nclones=0, tags=()), bw),
                    ("bwc", cfg("a-a/b-b", 6, bwc, nclones=0, tags=()), bwc),
                    ("btc", cfg("a-a/b-a/bc-b", 6, btc, nclones=2, tags=("t1", "t2")), btc)]
